@@ -1127,4 +1127,171 @@ theorem finished_or_progress {s : State} (hobj : ObjsInv s) (hrole : RoleInv s)
       exact node_progress hobj hrole hl hm hp (hfresh m hm) hmp (hclean m) hmd
   · exact absurd hp hph
 
+
+/-! ### termination -/
+
+theorem lexLt_wf : WellFounded LexLt := by
+  apply Subrelation.wf (r := Prod.Lex (· < ·) (· < ·))
+  · intro a b h
+    obtain ⟨a1, a2⟩ := a
+    obtain ⟨b1, b2⟩ := b
+    rcases h with h | ⟨h1, h2⟩
+    · exact Prod.Lex.left _ _ h
+    · simp only at h1 h2; subst h1; exact Prod.Lex.right _ h2
+  · exact (Prod.lex Nat.lt_wfRel Nat.lt_wfRel).wf
+
+theorem lexLt_trans {a b c : Nat × Nat} (h1 : LexLt a b) (h2 : LexLt b c) : LexLt a c := by
+  unfold LexLt at *
+  omega
+
+theorem lexLt_irrefl (a : Nat × Nat) : ¬ LexLt a a := by
+  unfold LexLt; omega
+
+/-- along a stretch of quiet events the measure does not increase -/
+theorem mu_chain {s0 : State} {σ : Nat → State} {es : Nat → Ev} (hrun : Run s0 σ es) {K : Nat}
+    (hq : ∀ i, K ≤ i → (es i).quiet (σ i) = true) :
+    ∀ d, LexLt (mu (σ (K + d))) (mu (σ K)) ∨ mu (σ (K + d)) = mu (σ K) := by
+  intro d
+  induction d with
+  | zero => exact Or.inr rfl
+  | succ d ih =>
+    have hstep := mu_quiet (hrun.en (K + d)) (hq (K + d) (Nat.le_add_right ..))
+    rw [← hrun.next] at hstep
+    have : K + (d + 1) = K + d + 1 := by omega
+    rw [this]
+    rcases hstep with h | h <;> rcases ih with h' | h'
+    · exact Or.inl (lexLt_trans h h')
+    · exact Or.inl (h' ▸ h)
+    · exact Or.inl (h ▸ h')
+    · exact Or.inr (h.trans h')
+
+/-- TERMINATION: a run that is quiet from some point on lowers the measure only finitely often -/
+theorem eventually_stutters {s0 : State} {σ : Nat → State} {es : Nat → Ev} (hrun : Run s0 σ es) :
+    ∀ (m : Nat × Nat) (K : Nat), mu (σ K) = m → (∀ i, K ≤ i → (es i).quiet (σ i) = true) →
+      ∃ M, K ≤ M ∧ ∀ j, M ≤ j → ¬ LexLt (mu (σ (j + 1))) (mu (σ j)) := by
+  intro m
+  induction m using lexLt_wf.induction with
+  | _ m ih =>
+    intro K hm hq
+    by_cases hex : ∃ j, K ≤ j ∧ LexLt (mu (σ (j + 1))) (mu (σ j))
+    · obtain ⟨j, hj, hlt⟩ := hex
+      have hch := mu_chain hrun hq (j - K)
+      have hjK : K + (j - K) = j := by omega
+      rw [hjK] at hch
+      have hlt' : LexLt (mu (σ (j + 1))) m := by
+        rw [← hm]
+        rcases hch with h | h
+        · exact lexLt_trans hlt h
+        · exact h ▸ hlt
+      obtain ⟨M, hM, hrest⟩ := ih _ hlt' (j + 1) rfl (fun i hi => hq i (by omega))
+      exact ⟨M, by omega, hrest⟩
+    · refine ⟨K, Nat.le_refl _, fun j hj hlt => hex ⟨j, hj, hlt⟩⟩
+
+/-- a fair run that is quiet from `K` on and in which every state from `K` on is
+finished or can make progress ends finished, and stays so -/
+theorem fair_run_finishes {s0 : State} {σ : Nat → State} {es : Nat → Ev} (hrun : Run s0 σ es)
+    (hfair : Fair σ) {K : Nat} (hq : ∀ i, K ≤ i → (es i).quiet (σ i) = true)
+    (hfp : ∀ i, K ≤ i → Finished (σ i) ∨ ∃ e, Progress (σ i) e) :
+    ∃ M, K ≤ M ∧ ∀ j, M ≤ j → Finished (σ j) := by
+  obtain ⟨M, hM, hrest⟩ := eventually_stutters hrun _ K rfl hq
+  refine ⟨M, hM, fun j hj => ?_⟩
+  rcases hfp j (by omega) with h | h
+  · exact h
+  · apply Classical.byContradiction
+    intro hnf
+    obtain ⟨j', hj', hlt⟩ := hfair j hnf h
+    exact absurd hlt (hrest j' (by omega))
+
+/-! ### failure-free runs from the initial state -/
+
+theorem reach_nodes {g : List NodeInfo} {s : State} (h : Reach g s) : s.nodes = g := by
+  induction h with
+  | init => rfl
+  | step _ _ ih => rw [apply_nodes]; exact ih
+
+theorem run_reach {g : List NodeInfo} {σ : Nat → State} {es : Nat → Ev}
+    (hrun : Run (init g) σ es) : ∀ i, Reach g (σ i) := by
+  intro i
+  induction i with
+  | zero => rw [hrun.start]; exact Reach.init
+  | succ i ih => rw [hrun.next]; exact Reach.step ih (hrun.en i)
+
+theorem run_ffInv {g : List NodeInfo} {σ : Nat → State} {es : Nat → Ev}
+    (hrun : Run (init g) σ es) (hff : ∀ i, (es i).failureFree = true) : ∀ i, FFInv (σ i) := by
+  intro i
+  induction i with
+  | zero => rw [hrun.start]; exact ffInv_init g
+  | succ i ih =>
+    rw [hrun.next]
+    have hr := run_reach hrun i
+    exact ffInv_step (reach_objsInv hr) (reach_launchInv hr) ih (hrun.en i) (hff i)
+
+theorem ff_clean {s : State} (hff : FFInv s) (n : Nat) : CleanNode s n :=
+  fun f r => (hff.obj ⟨n, f, r⟩).clean
+
+/-- deadlock freedom for failure-free histories -/
+theorem ff_finished_or_progress {g : List NodeInfo} {s : State} (hr : Reach g s) (hff : FFInv s)
+    (hac : Acyclic g) : Finished s ∨ ∃ e, Progress s e :=
+  finished_or_progress (reach_objsInv hr) (reach_roleInv hr) (reach_launchInv hr)
+    (reach_forkRange hr) (by rw [reach_nodes hr]; exact hac) hff.alive (ff_clean hff)
+
+theorem ff_quiet {s : State} {e : Ev} (h1 : e.failureFree = true) (h2 : e.structural s = false) :
+    e.quiet s = true := by
+  cases e <;> simp_all [Ev.quiet, Ev.failing, Ev.structural, Ev.failureFree]
+
+theorem topoSorted_acyclic {g : List NodeInfo} (h : topoSorted g = true) : Acyclic g := by
+  refine ⟨id, fun n p hp => ?_⟩
+  simp only [topoSorted, List.all_eq_true, List.mem_range, decide_eq_true_eq] at h
+  by_cases hn : n < g.length
+  · exact h n hn p hp
+  · have : g[n]? = none := by simpa using Nat.le_of_not_lt hn
+    simp [preOf, this] at hp
+
+
+/-- what "exactly once" means for fork `f` of stage node `n` in state `s` (as in
+`exactly_once_at_complete`) -/
+def ExactlyOnce (s : State) (n f : Nat) : Prop :=
+  (s.st ⟨n, f, .fork⟩ = some .complete →
+    (∀ i, i < s.nch n f → launchCount s ⟨n, f, .chunk i⟩ = 1) ∧
+    (∀ i, s.nch n f ≤ i → launchCount s ⟨n, f, .chunk i⟩ = 0) ∧
+    (s.kind n = .splitstage →
+      launchCount s ⟨n, f, .split⟩ = 1 ∧ launchCount s ⟨n, f, .join⟩ = 1) ∧
+    (s.kind n = .stage →
+      launchCount s ⟨n, f, .split⟩ = 0 ∧ launchCount s ⟨n, f, .join⟩ = 0)) ∧
+  (s.st ⟨n, f, .fork⟩ = some .disabled → ∀ r, launchCount s ⟨n, f, r⟩ = 0)
+
+theorem finished_forks {s : State} (h : Finished s) (n f : Nat) (hn : n < s.nodes.length)
+    (hf : f ∈ s.forksOf n) :
+    s.st ⟨n, f, .fork⟩ = some .complete ∨ s.st ⟨n, f, .fork⟩ = some .disabled := by
+  have := nodeDone_iff.mp (h.2 n hn).1 f hf
+  simpa [fmDone] using this
+
+/-- the state after the first `i` events of a list (for concrete runs) -/
+def prefixState (s0 : State) (evs : List Ev) (i : Nat) : State := (evs.take i).foldl apply s0
+
+theorem prefixState_succ (s0 : State) (evs : List Ev) (i : Nat) :
+    prefixState s0 evs (i + 1) = apply (prefixState s0 evs i) (evs.getD i .stepend) := by
+  unfold prefixState
+  by_cases h : i < evs.length
+  · rw [List.take_add_one, List.foldl_append]
+    simp [List.getD, h]
+  · have h1 : evs.take (i + 1) = evs := List.take_of_length_le (by omega)
+    have h2 : evs.take i = evs := List.take_of_length_le (by omega)
+    have h3 : evs.getD i .stepend = .stepend := by
+      have : evs[i]? = none := by simp; omega
+      simp [List.getD, this]
+    rw [h1, h2, h3]; rfl
+
+/-- a finite history followed by `stepend` for ever is a run, if the history is accepted -/
+theorem run_of_list (s0 : State) (evs : List Ev)
+    (h : ∀ i, i < evs.length → enabled (prefixState s0 evs i) (evs.getD i .stepend) = true) :
+    Run s0 (prefixState s0 evs) (fun i => evs.getD i .stepend) := by
+  refine ⟨rfl, fun i => ?_, prefixState_succ s0 evs⟩
+  by_cases hi : i < evs.length
+  · exact h i hi
+  · have : evs.getD i .stepend = .stepend := by
+      have : evs[i]? = none := by simp; omega
+      simp [List.getD, this]
+    rw [this]; rfl
+
 end Martian.Sched
